@@ -371,7 +371,7 @@ def judge(res, pdef):
         if verdict:
             findings.append(Finding('violation', res, i, verdict))
             break
-        if c in ('dmgsweep', 'crashsweep', 'flipsweep', 'faultsweep', 'cancelsweep') and impl.startswith('sweep ok'):
+        if c in ('dmgsweep', 'crashsweep', 'flipsweep', 'faultsweep', 'cancelsweep', 'toolsweep', 'concsweep') and impl.startswith('sweep ok'):
             impl = 'sweep ok'      # the count of damaged copies is reported, not compared
         impl_only = c in pdef.get('impl_only_cmds', ()) or (c in pdef.get('impl_only_if_ct', ()) and ' rt=ct' in res['script'][0])
         if impl != model and not nomodel and not impl_only and not disagreed:
